@@ -951,19 +951,19 @@ class Reaction(Object):
         """
         # no references to model when copying
         model = self._model
+        # the metabolites and genes of a reaction that was removed from its model
+        # still belong to that model: everyone gets their own reference back
+        species_models = [(i, i._model) for i in self._metabolites]
+        species_models += [(i, i._model) for i in self._genes]
         self._model = None
-        for i in self._metabolites:
-            i._model = None
-        for i in self._genes:
+        for i, _ in species_models:
             i._model = None
         # now we can copy
         new_reaction = deepcopy(self)
         # restore the references
         self._model = model
-        for i in self._metabolites:
-            i._model = model
-        for i in self._genes:
-            i._model = model
+        for i, species_model in species_models:
+            i._model = species_model
         return new_reaction
 
     def __add__(self, other: "Reaction") -> "Reaction":
